@@ -59,6 +59,8 @@ pub struct Ctx {
     pub only: Option<String>,
     pub case_ops: Vec<String>,
     pub notes: Vec<String>,
+    /// scalars the next customer-side prover call (`Requested::new` / `Ready::start`) is forced to draw first
+    pub forced_next: Vec<bls12_381::Scalar>,
 }
 
 fn fnv(s: &str) -> u64 {
@@ -92,6 +94,7 @@ impl Ctx {
             only: std::env::var("ZKVERIF_ONLY").ok(),
             case_ops: Vec::new(),
             notes: Vec::new(),
+            forced_next: Vec::new(),
         }
     }
 
